@@ -32,6 +32,15 @@ NOTES = {
  "C14-c": "escaped at first (no `let` inside type blocks), then caught under 2 of 3 PRNG seeds only; block variables, twin resources and variable-only blocks added until every seed tried catches it",
  "C15-c": "escaped at first (parameter names never coincided with caller variables); crossed-names abstraction added",
  "C18-c": "escaped at first (no conversion of a parse_char result); parse_int / parse_float of chars added",
+ "C02-c": "caught at first only under some PRNG seeds; C02 stage 'values' (all status vectors of 1-3 values for type / query / filter / some blocks) now catches it by enumeration",
+ "C05-d": "escaped at first (one data file per run); multi-data modes (sarif, json, junit, console over four data files) added to the process stage",
+ "C08-d": "escaped at first (no oracle for 'does not conform to the grammar'); stage 'framing': a comment header / trailer never decides whether a text is accepted",
+ "C09-d": "escaped at first (a listed check that lost its message was not noticed); the message oracle now works both ways: every message whose own clause failed on a FAIL path must be carried by a listed check",
+ "C11-d": "escaped at first (floats were written in one spelling); `1e+22`, `1.0e22`, `1E22` spellings added",
+ "C13-d": "escaped at first (no two integers that round to the same double); i64::MAX-1 and 2^53 neighbours added",
+ "C15-d": "caught at first only under some PRNG seeds; stage 'mixed-projections' added (projection resolving for some entries only, through variables at every level and through parameters)",
+ "C16-d": "escaped at first (ground truth was the library loader, which like `test` has no source locations); statuses are now cross-checked with the validate command, programs capture keys across several maps",
+ "C17-d": "escaped at first (one data file per run); a structured run over the data file and a copy of it added",
  "C09-a": "caught through the file-status law; C09 now also compares rule names with the generated programs",
 }
 rows = []
